@@ -143,7 +143,12 @@ def configure_v2(config: dict[str, Any]) -> None:
                 filename = sorted(flist)[0]
         config["grid"]["filename"] = filename
 
-    # Warm start
+    configure_warm_start(config)
+
+
+def configure_warm_start(config: dict[str, Any]) -> None:
+    """Warm start settings, common to both configuration versions"""
+
     if "filename" in config["warm_start"]:
         warm_start_file = config["warm_start"]["filename"]
         # Warm start overrides start time
@@ -286,8 +291,9 @@ def configure_v1(config: dict[str, Any]) -> dict[str, Any]:
     else:
         conf2["ibm"] = dict()
 
-    if "warm_start" not in config:
-        conf2["warm_start"] = dict()
+    conf2["warm_start"] = dict(config.get("warm_start") or {})
+    if config["files"].get("warm_start_file"):  # The version 1 name
+        conf2["warm_start"]["filename"] = config["files"]["warm_start_file"]
 
     # output
     conf2["output"] = dict(
@@ -316,5 +322,7 @@ def configure_v1(config: dict[str, Any]) -> dict[str, Any]:
             datatype=D.pop("ncformat")
         )
         conf2["output"]["particle_variables"][var]["attributes"] = D
+
+    configure_warm_start(conf2)
 
     return conf2
